@@ -187,15 +187,36 @@ func runC17(r *Rng, n int, tier string) {
 		var tags []string
 		qi := 0
 		anyBad := false
-		for f := 0; f < nfiles; f++ {
+		// a directory is read in lexical order; an explicit list of files in the order it is written
+		explicit := i >= len(c17Layouts) && i%3 == 2
+		many := i%6 == 5
+		if explicit {
+			nfiles = 2 + r.Intn(2)
+		}
+		listed := make([]int, nfiles)
+		for f := range listed {
+			listed[f] = f
+		}
+		if explicit {
+			listed = r.Perm(nfiles)
+			if nfiles == 2 {
+				listed = []int{1, 0}
+			}
+		}
+		var refs []string
+		for _, f := range listed {
 			fname := fmt.Sprintf("%s/%c.sql", lay.queries, 'a'+f)
+			refs = append(refs, fmt.Sprintf("%s/%c.sql", lay.ref, 'a'+f))
 			order = append(order, fname)
 			k := 1 + r.Intn(4)
+			if many {
+				k = 7 + r.Intn(5) // more than a dozen diagnostics in all
+			}
 			var body strings.Builder
 			var sts []qstmt
 			for j := 0; j < k; j++ {
 				qi++
-				st := genQueryStmt(r, qi, r.Chance(45) || (i < len(c17Layouts) && j == 0))
+				st := genQueryStmt(r, qi, r.Chance(45) || (i < len(c17Layouts) && j == 0) || (many && r.Chance(80)))
 				sts = append(sts, st)
 				body.WriteString(st.text)
 			}
@@ -229,7 +250,15 @@ func runC17(r *Rng, n int, tier string) {
 				tags = append(tags, "multibyte")
 			}
 		}
-		files[cfgPrefix+"sqlc.json"] = fmt.Sprintf(`{"version":"1","packages":[{"path":"out","engine":"postgresql","schema":"schema.sql","queries":%q}]}`, lay.ref)
+		qref := jsonStr(lay.ref)
+		if explicit {
+			qref = jsonStr(refs)
+			tags = append(tags, "explicit-file-list")
+		}
+		if many {
+			tags = append(tags, "many-diagnostics")
+		}
+		files[cfgPrefix+"sqlc.json"] = fmt.Sprintf(`{"version":"1","packages":[{"path":"out","engine":"postgresql","schema":"schema.sql","queries":%s}]}`, qref)
 		res := generateIn(files, lay.cfg)
 		tags = append(tags, "layout:"+lay.cfg+"|"+lay.queries)
 		var got [][3]string
